@@ -421,9 +421,32 @@ func parseNumber(token string) (float64, error) {
 		return strconv.ParseFloat("0", 64)
 	}
 
-	exact, ok := new(big.Rat).SetString(token)
+	// the value as an exact fraction: digits x 10^(exponent - number of fraction digits); big.Rat.SetString itself
+	// refuses literals whose exponent exceeds a million
+	unsigned := strings.TrimLeft(mantissa, "+-")
+	fractionDigits := 0
+
+	if i := strings.IndexByte(unsigned, '.'); i >= 0 {
+		fractionDigits = len(unsigned) - i - 1
+	}
+
+	digits, ok := new(big.Int).SetString(strings.Replace(unsigned, ".", "", 1), 10)
 	if !ok {
 		return strconv.ParseFloat(token, 64)
+	}
+
+	exp.Sub(exp, big.NewInt(int64(fractionDigits)))
+	power := new(big.Int).Exp(big.NewInt(10), new(big.Int).Abs(exp), nil)
+	exact := new(big.Rat)
+
+	if exp.Sign() >= 0 {
+		exact.SetInt(digits.Mul(digits, power))
+	} else {
+		exact.SetFrac(digits, power)
+	}
+
+	if strings.HasPrefix(mantissa, "-") {
+		exact.Neg(exact)
 	}
 
 	value, _ := exact.Float64()
